@@ -92,13 +92,13 @@ CONC = {
                 assumptions=['the reservation step carries the value its own Add returned and the limit the thread loads next; that the code hands back a reservation above that limit is part of the replayed protocol (no assumption that there is one event loop)',
                              'n < 1 means runtime.NumCPU() (config.go withSafeConcurrency; covered by the lifecycle model C14_tunepool_sets_concurrency)']),
     'C06': dict(module='Properties.C06', file='Properties/C06.v', slices=['disp', 'barrier'],
-                families=['burst', 'lifecycle', 'cancel', 'saturate', 'pool', 'persist', 'ctlrace'],
+                families=['burst', 'lifecycle', 'cancel', 'saturate', 'pool', 'persist', 'ctlrace', 'barriers', 'stopwindow'],
                 quick_episodes=250, thorough_episodes=3000,
                 rule=SLICE_DISP_RULE, trusted_base=TB_CONC,
                 assumptions=['"returns once its condition holds" (no missed wake-up) is a progress statement: decided by the exact-quiescence monitor (a barrier caller parked at rest is a violation) and C03',
                              'a bound queue\'s Len() is never negative and counts every element in it (C17_fifo_len_exact; priority queue: slice length under the lock; adapters: contract)']),
     'C09': dict(module='Properties.C09', file='Properties/C09.v', slices=['disp'],
-                families=['lifecycle', 'lifeseq', 'pool', 'cancel'],
+                families=['lifecycle', 'lifeseq', 'pool', 'cancel', 'barriers', 'stopwindow'],
                 quick_episodes=350, thorough_episodes=4000,
                 rule=SLICE_DISP_RULE, trusted_base=TB_CONC,
                 assumptions=['"all processed, in queue order, after Resume / Restart" combines C03 (progress) and C04 (order) with C09_status_store_keeps_queues']),
@@ -111,10 +111,10 @@ CONC = {
                 rule=SLICE_JOB_RULE + '; plus the queue differential test of C04 (an element accepted by a queue is handed out exactly once)', trusted_base=TB_CONC,
                 assumptions=['job-level theorem: each enqueued job is handed out by its queue at most once (Fifo/Heap refinement theorems, C04) and each payload sent to a pool node is received at most once (channel semantics)',
                              '"eventually runs" is the progress property C03; identity of ID/data: monitors + C12']),
-    'C03': dict(module='Properties.C03', file='Properties/C03.v', slices=['wake'],
+    'C03': dict(module='Properties.C03', file='Properties/C03.v', slices=['wake', 'batch'],
                 families=['burst', 'lifecycle', 'cancel', 'saturate', 'pool', 'persist', 'recover', 'multiq', 'batch', 'order', 'staleloop'],
                 quick_episodes=150, thorough_episodes=2000, crash_props=['C03'],
-                native=dict(scenarios=['bigburst'], rounds=1, thorough_rounds=1),
+                native=dict(scenarios=['bigburst', 'bigbatch'], rounds=1, thorough_rounds=1),
                 rule='episodes = scenario programs run under the controlled scheduler on the instrumented library (see C01); per episode the worker-level wake-up protocol is projected onto '
                      'coq/SliceWake.v — every change of the event loop\'s guard inputs (status, curProcessing, concurrency, pending) with the flag "this thread goes on to notify", every notify, '
                      'receive, park, close / reopen of the signal channel — and replayed on the extracted model, including the requirement that every step making work dispatchable is followed by '
@@ -148,19 +148,23 @@ CONC = {
                 families=['batch'],
                 quick_episodes=900, thorough_episodes=10000,
                 native=dict(scenarios=['bigbatch'], rounds=1, thorough_rounds=1),
+                diffs=[QUEUES_DIFF], diff_footprint=['PV', 'HPV', 'validator:'], diff_oracles=['fifo.purge-values', 'heap.purge-values'],
                 rule=SLICE_JOB_RULE + '; per batch the log is also projected onto the events of coq/SliceBatch.v (counter loads / compare-and-swaps, wait group, '
                      'stream sends / close / receives) and replayed; batches of size 0..6 on all three worker kinds and both in-memory queue kinds, '
-                     'closed queue (all items rejected), purge during the batch, stream readers and batch Wait callers',
+                     'closed queue (all items rejected), purge during the batch, stream readers and batch Wait callers; plus the PurgeValues records of the queue differential test (a purge hands out every pending element: ' 
+                     'capacities patched so that the pending elements span several segments) and, in native mode, batches of more than 1024 items: unread until Wait has returned, and purged while pending',
                 trusted_base=TB_CONC,
                 assumptions=['each item calls WgCounter.Done exactly once (per-item protocol: SliceJob theorems C10_closed_once / C01)',
                              'tagging of results with the item id and value fidelity: monitored (stream contents vs. a pure function of the item), not modelled']),
     'C10': dict(module='Properties.C10', file='Properties/C10.v', slices=['job'],
                 families=['cancel', 'batch', 'lifecycle'],
                 quick_episodes=350, thorough_episodes=4000,
-                rule=SLICE_JOB_RULE, trusted_base=TB_CONC,
+                native=dict(scenarios=['bigbatch'], rounds=1, thorough_rounds=1),
+                diffs=[QUEUES_DIFF], diff_footprint=['PV', 'HPV', 'validator:'], diff_oracles=['fifo.purge-values', 'heap.purge-values'],
+                rule=SLICE_JOB_RULE + '; Purge hands out everything that was pending (PurgeValues records of the queue differential test; native mode: a purged batch that spans several queue segments)', trusted_base=TB_CONC,
                 assumptions=['Purge on the built-in queues removes and returns the contents under one lock (PurgeValues); custom IQueue implementations without PurgeValues keep the Values()+Purge() window']),
     'C11': dict(module='Properties.C11', file='Properties/C11.v', slices=['job'],
-                families=['persist', 'recover', 'dist', 'multiq'],
+                families=['persist', 'recover', 'dist', 'multiq', 'ctxpersist'],
                 quick_episodes=350, thorough_episodes=4000,
                 rule=SLICE_JOB_RULE + '; adapters are recording specification objects with per-call fault injection (enqueue / dequeue / acknowledge refused); '
                      'the crash monitor checks at the end of every history that each accepted item is pending, unacknowledged, or acknowledged-and-processed, '
@@ -215,7 +219,7 @@ CONC = {
                              'after the user\'s context is cancelled every state decays to Stopped (a Restart derives its context from the cancelled one)',
                              '"Running means able to process" is checked by a probe job in every episode (and rests on the progress property C03)']),
     'C17': dict(module='Properties.C17', file='Properties/C17.v', slices=['batch'],
-                families=['burst', 'lifecycle', 'saturate', 'multiq', 'persist', 'cancel', 'batch'],
+                families=['burst', 'lifecycle', 'saturate', 'multiq', 'persist', 'cancel', 'batch', 'dist'],
                 quick_episodes=200, thorough_episodes=2500,
                 diffs=[QUEUES_DIFF, MANAGER_DIFF], diff_footprint=['L', 'HL', 'MLEN', 'E', 'D', 'H+', 'H-', 'PV', 'HPV', 'validator:'],
                 diff_oracles=['fifo.len', 'heap.len', 'mgr.len'],
